@@ -12,6 +12,18 @@ SPECS = {
                + [{"entry": e, "label": "%s.r1.f%d.k%d.o%d" % (e, f, k, o), "fix": {"rank": 1, "focus": f, "kind#%d" % f: k, "kind#%d" % (1 - f): o}, "tiers": ["thorough"]} for e in ("vh_c05_tagged", "vh_c05_feature") for f in range(2) for k in range(5) for o in range(5)]
                + [{"entry": "vh_c05_tagged", "label": "vh_c05_tagged.r2.f%d.k%d" % (f, k), "fix": dict([("rank", 2), ("focus", f), ("n", 1)] + [("kind#%d" % d, (k if d == f else (k + 1 + d) % 5)) for d in range(3)]), "tiers": ["thorough"]} for f in range(3) for k in range(5)]
                + [{"entry": "vh_c05_tagged", "label": "vh_c05_tagged.real.k%d" % k, "fix": {"rank": 0, "kind#0": k}, "no_replace": ["getSampledIndex", "getSetIndex", "getDataFrameIndex"], "tiers": ["thorough"]} for k in (0, 1, 3, 4)]}]},
+ "C06": {
+  "explanation": "Real util::taggedData / featureData (list and single-index overloads, MultiTag::taggedData with the default mode) / getOffsetAndCount(MultiTag) / positionToIndex / Dimension::indexOf pair logic / DataView / back-end on arrays stored in the HDF5 model; positions/extents arrays of N rows and rank-1, rank or rank+1 columns, row 0 symbolic in one focus dimension; index lists incl. indices past the end; oracle as in C05 applied to row i; list retrieval must equal the single retrievals; Indexed/Untagged/Tagged features. Quick tier: arithmetic index kernels replaced by the C07 relation (see C05).",
+  "bounds": {"quick": {"rank": "1..2", "extent_per_axis": "1..2", "positions": "1..2 rows", "index_lists": 6, "dimension_kinds": 5},
+             "thorough": {"rank": "1..2", "extent_per_axis": "1..3", "positions": "1..3 rows"}},
+  "outside": ["N up to 8 of the statement (bound: 3)", "1-D positions tagging data of rank > 1", "units other than none (C18)", "symbolic sampling intervals/offsets (C07)"],
+  "assumptions": ["libhdf5 replaced by h5model", "quick tier: getSampledIndex/getSetIndex/getDataFrameIndex satisfy the C07 relation exactly (contract stub in harness/tagging.hpp)"],
+  "harnesses": [{"file": "C06_mtag.cpp", "defines": {"quick": ["-DVH_MAXRANK=2", "-DVH_MAXEXT=2", "-DVH_NSAMPLING=2", "-DVH_MAXPOS=2", "-DVH_NLISTS=4"], "thorough": ["-DVH_MAXRANK=2", "-DVH_MAXEXT=3", "-DVH_NSAMPLING=4", "-DVH_MAXPOS=3"]},
+     "entries": [{"entry": "vh_c06_tagged", "label": "vh_c06_tagged.q.r0.k%d.c%d" % (k, c), "fix": {"rank": 0, "kind#0": k, "cols": c, "npositions": 1}, "tiers": ["quick"]} for (k, c) in ((0, 1), (1, 1), (2, 1), (3, 1), (4, 1), (1, 0), (1, 2))]
+               + [{"entry": "vh_c06_feature", "label": "vh_c06_feature.q.r0.k%d.c%d" % (k, c), "fix": {"rank": 0, "kind#0": k, "cols": c, "npositions": 1}, "tiers": ["quick"]} for (k, c) in ((0, 0), (1, 1))]
+               + [{"entry": "vh_c06_tagged", "label": "vh_c06_tagged.q.r1.f%d.k%d" % (f, k), "fix": {"rank": 1, "focus": f, "n": 1, "cols": 1, "npositions": 1, "kind#%d" % f: k, "kind#%d" % (1 - f): [1, 3, 4, 0, 1][k]}, "tiers": ["quick"]} for (f, k) in ((0, 1), (1, 3), (0, 0))]
+               + [{"entry": e, "label": "%s.r0.k%d.c%d" % (e, k, c), "fix": {"rank": 0, "kind#0": k, "cols": c}, "tiers": ["thorough"]} for e in ("vh_c06_tagged", "vh_c06_feature") for k in range(5) for c in range(3)]
+               + [{"entry": e, "label": "%s.r1.f%d.k%d.o%d" % (e, f, k, o), "fix": {"rank": 1, "focus": f, "cols": 1, "kind#%d" % f: k, "kind#%d" % (1 - f): o}, "tiers": ["thorough"]} for e in ("vh_c06_tagged", "vh_c06_feature") for f in range(2) for k in range(5) for o in range(5)]}]},
  "C01": {
   "explanation": "Full stack on the HDF5 model for 10 numeric element types plus Bool and String: bounded histories of hyperslab writes (offset/count inside, touching and crossing the edge), appends along each axis, extent changes (grow/shrink) and sub-region reads with symbolic element values, compared with a dense reference array after every step and after reopen; reads as other numeric types; calibration polynomial/origin in the exact regime (integer-valued doubles) with raw reads unaffected; kernel checks of applyPolynomial (arbitrary doubles, order-independent facts) and guessChunking.",
   "bounds": {"quick": {"history_steps": 2, "rank": "1..2", "extent": "<= 3 per axis (4 after append)", "values": "symbolic, full range of the type", "polynomial": "degree <= 2, |coef| < 1024, |x|,|origin| < 256"},
@@ -52,8 +64,8 @@ SPECS = {
   "assumptions": ["libhdf5 replaced by h5model (identifier reference counts, weak file close degree)"],
   "harnesses": [{"file": "C11_close.cpp", "entries": [{"entry": "vh_c11_close"}]}]},
  "C12": {
-  "explanation": "K: the real util::createId (boost mt19937 seeded from time(), basic_random_generator, uuids::to_string) executed in the engine: first three ids well-formed version-4 UUIDs and distinct. S: in the world file every entity id and the file id is well formed; across 14 operations (re-create by name, modify, replace, delete+create, reopen) no surviving entity's id changes, new entities get fresh ids, forceId changes only the file id.",
-  "bounds": {"operations": 14, "ids_checked": "all entities of harness/world.hpp", "createId": "first 3 calls, time() concrete"},
+  "explanation": "K: the real util::createId (boost mt19937 seeded from time(), basic_random_generator, uuids::to_string) executed in the engine: first three ids well-formed version-4 UUIDs and distinct. S: in the world file every entity id and the file id is well formed; across 17 operations (re-create by name, modify, replace, delete+create, reopen) no surviving entity's id changes, new entities get fresh ids, forceId changes only the file id.",
+  "bounds": {"operations": 17, "ids_checked": "all entities of harness/world.hpp", "createId": "first 3 calls, time() concrete"},
   "outside": ["absence of collisions between independently seeded generators / other processes (probabilistic; the generator is seeded with time(0) only: see DESIGN.md)", "all 2^128 raw values of to_string"],
   "assumptions": ["S entries use the counter-based createId replacement (ids unique by construction); the K entry runs the real one"],
   "harnesses": [{"file": "C12_ids.cpp", "entries": [{"entry": "vh_c12_real_createid", "no_replace": ["createId"],
@@ -65,17 +77,17 @@ SPECS = {
   "assumptions": ["libhdf5 replaced by h5model; boost::filesystem::exists and FileHDF5::fileExists answered by the model's file table"],
   "harnesses": [{"file": "C09_modes.cpp", "entries": [{"entry": "vh_c09_readonly"}, {"entry": "vh_c09_readwrite_overwrite"}]}]},
  "C04": {
-  "explanation": "Full stack on the HDF5 model: in the fully linked world file one of 17 entities (every kind, including link targets with several holders and subtree roots) is deleted by name, by id or by handle; every entity is then re-collected through the public getters and compared with the pre-state: deleted set unreachable, survivors' attributes/data identical, their link lists equal to the old ones minus links into the deleted set, also after reopen.",
-  "bounds": {"victims": 17, "ways": ["name", "id", "handle"], "graph": "harness/world.hpp (one target linked from up to 3 holders; source/section subtrees of depth 2)"},
+  "explanation": "Full stack on the HDF5 model: in the fully linked world file one of 21 entities (every kind, including link targets with several holders and subtree roots) is deleted by name, by id or by handle; every entity is then re-collected through the public getters and compared with the pre-state: deleted set unreachable, survivors' attributes/data identical, their link lists equal to the old ones minus links into the deleted set, also after reopen.",
+  "bounds": {"victims": 21, "ways": ["name", "id", "handle"], "graph": "harness/world.hpp (one target linked from up to 3 holders; source/section subtrees of depth 2)"},
   "outside": ["other link graphs", "links created after a reopen", "data-frame dimensions as holders"],
   "assumptions": ["libhdf5 replaced by h5model (hard-link counts, H5Iget_name semantics as validated by nix's test-suite)"],
-  "harnesses": [{"file": "C04_delete.cpp", "entries": [{"entry": "vh_c04_delete"}]}]},
+  "harnesses": [{"file": "C04_delete.cpp", "entries": [{"entry": "vh_c04_delete", "label": "vh_c04_delete.v%d" % v, "fix": {"victim": v}} for v in range(21)]}]},
  "C08": {
-  "explanation": "Full stack on the HDF5 model: on a fully linked file one call from a menu of 46 calls the API must reject (each class of invalid argument the property names) is attempted; if it throws, the complete observation of the file (every public getter, data included) must equal the observation taken before the call, also after close+reopen.",
-  "bounds": {"rejected_call_menu": 46, "file_state": "the fixed fully linked world of harness/world.hpp", "prefix_history": 0},
+  "explanation": "Full stack on the HDF5 model: on a fully linked file one call from a menu of 51 calls the API must reject (each class of invalid argument the property names) is attempted; if it throws, the complete observation of the file (every public getter, data included) must equal the observation taken before the call, also after close+reopen.",
+  "bounds": {"rejected_call_menu": 51, "file_state": "the fixed fully linked world of harness/world.hpp", "prefix_history": 0},
   "outside": ["file states other than the world file (the front-end argument checks are state-independent; back-end ones are exercised on this state)", "rejections caused by libhdf5 I/O errors"],
   "assumptions": ["libhdf5 replaced by h5model", "unit grammar (boost::regex) replaced by a hand-written matcher of the same expressions"],
-  "harnesses": [{"file": "C08_reject.cpp", "entries": [{"entry": "vh_c08_reject"}, {"entry": "vh_c08_reject_reopen"}]}]},
+  "harnesses": [{"file": "C08_reject.cpp", "entries": [{"entry": e, "label": "%s.op%d" % (e, o), "fix": {"op": o}} for e in ("vh_c08_reject", "vh_c08_reject_reopen") for o in range(51)]}]},
  "C02": {
   "explanation": "Full stack on the HDF5 model: a fully linked file (blocks, arrays with every dimension kind, data frame, tag, multi-tag, features, group, source and section trees, properties, metadata/section links) is mutated by a bounded history from a 34-entry menu with symbolic payloads, observed through every public getter, closed, reopened (ReadOnly and ReadWrite) and observed again; the two observations must be byte-identical.",
   "bounds": {"quick": {"history_steps": 1, "menu": 34, "payload": "symbolic doubles"}, "thorough": {"history_steps": 2, "intermediate_reopen": True}},
